@@ -132,8 +132,11 @@ def gen_attr_value(rng, tag, attr, vocab):
         r = rng.random()
         if r < 0.3:
             return rng.choice([0, 1, 100, -5])
-        if r < 0.6:
+        if r < 0.45:
             return rng.choice([0.0, 0.5, 1000.25, -1.5])
+        if r < 0.6:
+            # Python floats that need more than six significant digits, or an exponent, to be written faithfully
+            return rng.choice([86400.125, 2415020.5, 23.9999999, 1 / 3600, 123456789.125, -0.30000000000000004, 1e-07, 1e+16, 359.99999999])
         return rng.choice(["0", "1", "100.5", "-90", "360"])
     if attr == "format":
         return rng.choice(["%f", "%.2f", "%6.3f", "%d", "%.3m", "%10.6m", "%9.9m", "%g"])
